@@ -542,6 +542,8 @@ class ActionTypeHint(Action):
             val = self._check_type_(val, append=append, cfg=cfg)
             if is_subclass_spec(val):
                 prev_val = cfg.get(self.dest)
+                if is_subclass_spec(prev_val) and prev_val["class_path"] != val["class_path"]:
+                    prev_val.pop("dict_kwargs", None)  # Namespace.update merges by leaf: drop what belonged to the old class
                 if is_subclass_spec(prev_val) and "init_args" in prev_val:
                     ActionTypeHint.discard_init_args_on_class_path_change(
                         self,
@@ -1351,6 +1353,12 @@ def dump_kwargs_context(kwargs):
 
 
 def discard_init_args_on_class_path_change(parser_or_action, prev_val, value):
+    if prev_val and "dict_kwargs" in prev_val and prev_val["class_path"] != value["class_path"]:
+        del_kwargs = prev_val.pop("dict_kwargs")
+        parser_or_action.logger.debug(
+            f"Due to class_path change from {prev_val['class_path']!r} to {value['class_path']!r}, "
+            f"discarding dict_kwargs: {del_kwargs}."
+        )
     if prev_val and "init_args" in prev_val and prev_val["class_path"] != value["class_path"]:
         parser = parser_or_action
         if isinstance(parser_or_action, ActionTypeHint):
